@@ -810,7 +810,7 @@ func (u *PacketUnderlay) serverTryDecryptMetadataForNewSession(encryptedMeta []b
 	if u.serverUsers == nil {
 		return nil, nil, serveruser.Authentication{}, fmt.Errorf("server user registry is nil")
 	}
-	matchedBlock, decryptedMetadata, authentication, err := u.serverUsers.Discover(encryptedMeta, source, false)
+	matchedBlock, decryptedMetadata, authentication, err := u.serverUsers.Discover(encryptedMeta, source, true)
 	if err != nil {
 		return nil, nil, serveruser.Authentication{}, err
 	}
